@@ -20,6 +20,7 @@ rationals and hands them to the model and to the oracle:
 import contextlib
 import io
 import math
+import random
 import numpy as np
 import core
 from core import Fraction, frac, rat, ratlist
@@ -142,6 +143,8 @@ def prepare(case):
     P["deg"] = bool(case.get("deg")) or case.get("unit") == "deg"
     if grid and case["fn"] == "delta" and frac(case["t"]).denominator > 1024:
         P["sl"] = max(P["sl"], TINY)      # non-dyadic rel_tol: delta*rel_tol rounds
+    if case.get("flavour") in ("int", "f32") and (need_cang or need_tri):
+        P["sl"] = max(P["sl"], TINY)      # the matrices are rounded: angle thresholds hit exactly are not compared
     if grid and (need_cang or need_tri):
         hits, realised = realisation(case, P)
         P["hits"], P["realised"] = hits, realised
@@ -252,7 +255,53 @@ def realisation(case, P):
 
 
 # ----------------------------------------------------------------------------- implementation
+FLAVOURS = ["tuple", "stack", "aliased", "readonly", "fortran", "view", "int", "f32"]
+
+
+def flavour_ok(case, fl):
+    """int / float32 matrices only where they hold the same values (integer positions, rotations by
+    multiples of 90 degrees)"""
+    if fl in ("int", "f32"):
+        if case["kind"] != "grid" or any(k % 4 for k in case.get("rk", [])):
+            return False
+        if fl == "int" and "rk" in case:      # cos(k*pi/2) is ~1e-16, not 0: rounding changes nothing the selectors see
+            return True
+    return True
+
+
+def apply_flavour(case, poses):
+    """the same pose values handed over as another kind of sequence / array (L3)"""
+    fl = case.get("flavour")
+    if not fl or not poses:
+        return poses
+    if fl == "tuple":
+        return tuple(poses)
+    if fl == "stack":
+        return np.array(poses)
+    if fl == "aliased":       # equal poses are one and the same ndarray object
+        out = []
+        for p in poses:
+            hit = next((q for q in out if q.tobytes() == p.tobytes()), None)
+            out.append(hit if hit is not None else p)
+        return out
+    if fl == "readonly":
+        for p in poses:
+            p.setflags(write=False)
+        return poses
+    if fl == "fortran":
+        return [np.asfortranarray(p) for p in poses]
+    if fl == "view":
+        base = np.array(poses + poses)
+        return [base[k] for k in range(len(poses))]
+    if fl == "int":
+        return [np.rint(p).astype(np.int64) for p in poses]
+    if fl == "f32":
+        return [p.astype(np.float32) for p in poses]
+    return poses
+
+
 def run_impl(case):
+    """every call into evo is wrapped: an unexpected exception is an outcome to be judged (L12)"""
     from evo.core import filters, metrics, geometry
     from evo.core.units import Unit
     poses = build_poses(case)
@@ -261,30 +310,37 @@ def run_impl(case):
     buf = io.StringIO()
     try:
         with contextlib.redirect_stdout(buf):
+            seq = apply_flavour(case, poses)
             if fn == "index":
-                r = filters.filter_pairs_by_index(poses, int(case["delta"]), allp)
+                r = filters.filter_pairs_by_index(seq, int(case["delta"]), allp)
             elif fn == "path":
-                r = filters.filter_pairs_by_path(poses, case["delta"], case["t"], allp)
+                r = filters.filter_pairs_by_path(seq, case["delta"], case["t"], allp)
             elif fn == "angle":
-                r = filters.filter_pairs_by_angle(poses, case["delta"], case["t"], bool(case.get("deg")), allp)
+                r = filters.filter_pairs_by_angle(seq, case["delta"], case["t"], bool(case.get("deg")), allp)
             elif case.get("via") == "rpe":
-                r = run_rpe(case, poses)
+                r = run_rpe(case, seq)
             else:
-                r = metrics.id_pairs_from_delta(poses, case["delta"], Unit[UNITS[case["unit"]]], case["t"], allp)
-        if case.get("via") == "rpe":
-            out["ends"] = [int(j) for j in r[0]]
-            out["nerr"] = r[1]
-            out["ints"] = all(float(j) == int(j) for j in r[0])
-            out["pairs"] = None
-        else:
-            out["pairs"] = [(int(i), int(j)) for i, j in r]
-            out["ints"] = all(float(i) == int(i) and float(j) == int(j) for i, j in r)
+                r = metrics.id_pairs_from_delta(seq, case["delta"], Unit[UNITS[case["unit"]]], case["t"], allp)
+            if case.get("via") == "rpe":
+                out["ends"] = [int(j) for j in r[0]]
+                out["nerr"] = r[1]
+                out["ints"] = all(float(j) == int(j) for j in r[0])
+                out["pairs"] = None
+            else:
+                out["pairs"] = [(int(i), int(j)) for i, j in r]
+                out["ints"] = all(float(i) == int(i) and float(j) == int(j) for i, j in r)
     except filters.FilterException:
-        out["pairs"] = "E_FILTER"
-        out["ends"] = "E_FILTER"
+        out["pairs"] = out["ends"] = "E_FILTER"
+    except metrics.MetricsException:
+        out["pairs"] = out["ends"] = "E_METRICS"
+    except Exception as e:      # noqa: BLE001
+        out["pairs"] = out["ends"] = f"EXC:{type(e).__name__}: {str(e)[:120]}"
     if uses(case)[0] and len(poses) >= 1:
-        xyz = np.array([p[:3, 3] for p in poses])
-        out["acc"] = [float(x) for x in geometry.accumulated_distances(xyz)]
+        try:
+            xyz = np.array([p[:3, 3] for p in poses])
+            out["acc"] = [float(x) for x in geometry.accumulated_distances(xyz)]
+        except Exception as e:      # noqa: BLE001
+            out["acc_exc"] = f"EXC:{type(e).__name__}: {str(e)[:120]}"
     return out
 
 
@@ -297,24 +353,58 @@ def decoy_poses(case):
     return build_poses(d)
 
 
-def run_rpe(case, poses):
-    """the class route: metrics.RPE(...).process_data((ref, est)); observable: delta_ids (pair ends)"""
-    from evo.core import metrics
+def quats_of(spec):
+    """unit quaternions (w, x, y, z) of the grid rotations, computed here (not by evo)"""
+    ax = spec.get("axis", 2)
+    out = []
+    for k in spec.get("rk", [0] * len(spec["pos"])):
+        a = k * np.pi / 8
+        q = [math.cos(a / 2), 0.0, 0.0, 0.0]
+        q[1 + ax] = math.sin(a / 2)
+        out.append(q)
+    return np.array(out)
+
+
+def make_traj(case, spec, seq):
+    """the trajectory object handed to process_data: construction route x caches read beforehand (L4)"""
+    from evo.core.trajectory import PosePath3D
+    if case.get("route") == "pq":
+        t = PosePath3D(positions_xyz=np.array(spec["pos"], dtype=float), orientations_quat_wxyz=quats_of(spec))
+    else:
+        t = PosePath3D(poses_se3=seq)
+    for what in case.get("preread", []):
+        if what == "check":
+            t.check()
+        else:
+            getattr(t, what)
+    return t
+
+
+def run_rpe(case, seq):
+    """the class route: metrics.RPE(...).process_data((ref, est)); observable: delta_ids (pair ends).
+    `prev`: other trajectories processed by the same RPE object before (L1); only the last call is judged"""
+    from evo.core import metrics, filters
     from evo.core.units import Unit
     from evo.core.trajectory import PosePath3D
     kw = dict(pose_relation=metrics.PoseRelation.translation_part, delta=case["delta"],
               delta_unit=Unit[UNITS[case["unit"]]], all_pairs=case["all"], pairs_from_reference=bool(case.get("from_ref")))
     if not case.get("t_omitted"):
         kw["rel_delta_tol"] = case["t"]
-    sel, other = PosePath3D(poses_se3=poses), PosePath3D(poses_se3=decoy_poses(case))
     m = metrics.RPE(**kw)
+    for spec in case.get("prev", []):
+        a, b = PosePath3D(poses_se3=build_poses(spec)), PosePath3D(poses_se3=decoy_poses(spec))
+        try:
+            m.process_data((a, b) if case.get("from_ref") else (b, a))
+        except filters.FilterException:
+            pass
+    sel, other = make_traj(case, case, seq), PosePath3D(poses_se3=decoy_poses(case))
     m.process_data((sel, other) if case.get("from_ref") else (other, sel))
     return list(m.delta_ids), int(len(m.error))
 
 
 def model_lines(case, P):
     fn = case["fn"]
-    op = fn if fn != "delta" else "delta:" + case["unit"]
+    op = fn if fn != "delta" else ("rpe:" if case.get("via") == "rpe" else "delta:") + case["unit"]
     a = (f"{P['n']} {rat(P['pi'])} {rat(P['delta'])} {rat(P['t'])} {int(P['deg'])} {int(case['all'])} "
          f"{ratlist(P['steps'])} {ratlist(P['cang'])} {ratlist(P['tri'])}")
     lines = [f"C10 {op} {a}"]
@@ -342,7 +432,7 @@ def parse_pairs(s):
 def judge(ctx, case, P, impl, outs):
     fn, allp = case["fn"], case["all"]
     need_steps, need_cang, need_tri = uses(case)
-    model = parse_pairs(outs[0])
+    model = parse_pairs(outs[0]) if outs[0] != "E_METRICS" else "E_METRICS"
     sl = P["sl"]
     margin = None
     if need_steps or need_cang or need_tri:
@@ -355,7 +445,7 @@ def judge(ctx, case, P, impl, outs):
             comparable = False
     rpe = case.get("via") == "rpe"
     if rpe:
-        model_ends = model if model == "E_FILTER" else [j for _, j in model]
+        model_ends = model if isinstance(model, str) else [j for _, j in model]
         if comparable and impl["ends"] != model_ends:
             ctx.mismatch(case, f"RPE(delta_unit={case['unit']}, rel_delta_tol={'omitted' if case.get('t_omitted') else case['t']}, "
                                f"all_pairs={allp}, pairs_from_reference={bool(case.get('from_ref'))}).delta_ids differ from idPairsFromDelta",
@@ -389,7 +479,15 @@ def judge(ctx, case, P, impl, outs):
         ctx.count("dist", "rpe:rel_delta_tol=" + ("omitted" if case.get("t_omitted") else repr(case["t"])))
     ctx.count("dist", case["kind"] + ":" + key)
     ctx.count("dist", "n=%s" % (P["n"] if P["n"] <= 8 else "9-100" if P["n"] <= 100 else ">100"))
-    if model == "E_FILTER":
+    if case.get("flavour"):
+        ctx.count("dist", "poses-as:" + case["flavour"])
+    if case.get("prev"):
+        ctx.count("dist", "rpe-object-reused:%d-earlier-calls" % len(case["prev"]))
+    if case.get("route") or case.get("preread"):
+        ctx.count("dist", "rpe-traj:" + case.get("route", "poses") + "+%d-caches-preread" % len(case.get("preread", [])))
+    if model == "E_METRICS":
+        ctx.count("branch", key + ":metrics-error")
+    elif model == "E_FILTER":
         ctx.count("branch", key + ":refused")
     elif not model:
         ctx.count("branch", key + ":empty")
@@ -408,7 +506,7 @@ def judge(ctx, case, P, impl, outs):
     if P.get("hits"):
         ctx.count("branch", "angle-threshold-hit-in-units:" + ("realised-in-floats" if P["realised"] else "not-realised-skipped"))
     npairs_possible = P["n"] * (P["n"] - 1) // 2
-    nontrivial = (isinstance(model, list) and 0 < len(model) < npairs_possible) or (P["n"] >= 3 and (model == "E_FILTER" or model == []))
+    nontrivial = (isinstance(model, list) and 0 < len(model) < npairs_possible) or (P["n"] >= 3 and (isinstance(model, str) or model == []))
     ctx.record(case, nontrivial)
 
 
@@ -420,6 +518,14 @@ def oracle(ctx, case, P, impl):
     need_steps, need_cang, need_tri = uses(case)
     pairs = impl["pairs"]
     tags = {"fn": fn, "all_pairs": allp}
+    if "acc_exc" in impl:
+        ctx.fail(case, "unexpected-exception", "accumulated_distances: " + impl["acc_exc"], tags)
+    frames = fn == "index" or (fn == "delta" and case["unit"] == "f")
+    if not (P["delta"] > 0 and (not frames or P["delta"] >= 1)):
+        return      # the property quantifies over delta > 0 (frames: >= 1): correspondence only
+    if isinstance(pairs, str) and pairs != "E_FILTER":
+        ctx.fail(case, "unexpected-exception", pairs + (f" (poses as {case['flavour']})" if case.get("flavour") else ""), tags)
+        return
     refused = pairs == "E_FILTER"
     if fn != "delta" and refused and fn != "angle":
         ctx.fail(case, "unexpected-filter-error", "FilterException from a selector that has no error path", tags)
@@ -478,7 +584,7 @@ def oracle(ctx, case, P, impl):
         empty_ok = oracle_angle_all(ctx, case, tags, plist, P["tri"], d, t, sl, n)
     if fn == "delta" and refused and empty_ok is False:
         ctx.fail(case, "refused-although-pairs-exist", f"delta={float(delta)} unit={case['unit']}", tags)
-    if need_steps and "acc" in impl:
+    if need_steps and "acc" in impl and not isinstance(pairs, str) or (need_steps and "acc" in impl and pairs == "E_FILTER"):
         acc = prefix(P["steps"])
         a = impl["acc"]
         if len(a) != n or a[0] != 0.0 or any(abs(frac(x) - y) > sl for x, y in zip(a, acc)):
@@ -502,6 +608,11 @@ def oracle_rpe(ctx, case, P, impl):
     refused = ends == "E_FILTER"
     tags = {"fn": "rpe", "all_pairs": allp, "unit": u}
     tolname = "omitted" if case.get("t_omitted") else case["t"]
+    if not (P["delta"] > 0 and (u != "f" or (P["delta"] >= 1 and P["delta"].denominator == 1))):
+        return      # outside the property's quantifier (delta > 0, integer frames): correspondence only
+    if isinstance(ends, str) and ends != "E_FILTER":
+        ctx.fail(case, "unexpected-exception", ends, tags)
+        return
     if u == "other":
         if not refused:
             ctx.fail(case, "unsupported-unit-accepted", str(ends)[:80], tags)
@@ -902,6 +1013,78 @@ def rpe_cases(ctx, r, L, INC):
 
 
 def gen_cases(ctx):
+    """all streams; a third of the exact-grid cases hand the poses over in another flavour (L3), a third of
+    the class-route cases reuse the RPE object / build the trajectory another way (L1, L4)"""
+    r2 = random.Random(f"C10-decor/{ctx.seed}")
+    for c in gen_base(ctx):
+        if c["kind"] in ("grid", "fgrid") and len(c["pos"]) >= 1 and r2.random() < 0.3:
+            fl = r2.choice(FLAVOURS)
+            if flavour_ok(c, fl):
+                c = {**c, "flavour": fl}
+        if c.get("via") == "rpe" and c["unit"] != "other":
+            x = r2.random()
+            if x < 0.25:
+                prev = []
+                for _ in range(r2.randint(1, 2)):
+                    n = r2.randint(2, 9)
+                    prev.append({"pos": grid_positions(r2, [r2.choice([0, 1, 2, 3, 5]) for _ in range(n - 1)]),
+                                 "rk": [r2.randint(0, 15) for _ in range(n)], "axis": r2.randint(0, 2)})
+                c = {**c, "prev": prev}
+            elif x < 0.5 and c.get("flavour") not in ("int", "f32"):
+                pre = r2.sample(["positions_xyz", "orientations_quat_wxyz", "poses_se3", "check"], r2.randint(0, 3))
+                c = {**c, "preread": pre}
+                if c["unit"] in ("m", "f") and r2.random() < 0.6 and not c.get("flavour"):
+                    c["route"] = "pq"
+        yield c
+
+
+def structured_cases(ctx, r, L, INC):
+    """L5: sizes 2^k-1, 2^k, 2^k+1; L8: delta exactly 0 / negative / non-integer frames (outside the
+    property's quantifier: correspondence only)"""
+    th = ctx.thorough
+    sizes = [9, 15, 16, 17, 31, 32, 33, 63, 64, 65] + ([127, 128, 129, 255, 256, 257] if th else [128])
+    for n in sizes:
+        for d in sorted({1, 2, 3, n // 2, n - 1, n, n + 1}):
+            for allp in (False, True):
+                yield {"kind": "grid", "fn": "index", "all": allp, "pos": [[float(k), 0.0, 0.0] for k in range(n)],
+                       "delta": float(d), "t": 0.0}
+        for _ in range(2 if not th else 6):
+            lens = [r.choice(L + [1, 1, 0]) for _ in range(n - 1)]
+            pos = grid_positions(r, lens)
+            d = r.choice(half_grid(r, min(sum(lens), 40) + 1, 200))
+            yield {"kind": "grid", "fn": "path", "all": False, "pos": pos, "delta": d, "t": 0.0}
+            yield {"kind": "grid", "fn": "path", "all": True, "pos": pos, "delta": d, "t": r.choice([0.0, 0.5, 1.0, 2.5])}
+            rk = [r.randint(0, 15)]
+            for _ in range(n - 1):
+                rk.append(rk[-1] + r.choice(INC + [0, 0, 1]))
+            du = r.choice(half_grid(r, 8, 30))
+            for allp in (False, True):
+                tu = 0.0 if not allp else r.choice([0.0, 0.5, 1.0])
+                yield {"kind": "grid", "fn": "angle", "all": allp, "deg": False, "pos": pos, "rk": rk, "axis": r.randint(0, 2),
+                       "delta": du * np.pi / 8, "t": tu * np.pi / 8, "dm": str(Fraction(du)), "tm": str(Fraction(tu))}
+            u = r.choice(["m", "deg", "f"])
+            yield {"kind": "grid", "fn": "delta", "via": "rpe", "unit": u, "all": r.random() < 0.5, "from_ref": r.random() < 0.5,
+                   "pos": pos, "rk": rk, "axis": 2, "t": r.choice([0.0, 0.5, 0.1]),
+                   "delta": d if u == "m" else du * 22.5 if u == "deg" else float(r.randint(1, n))}
+    # degenerate deltas
+    for _ in range(60 if not th else 400):
+        n = r.randint(2, 8)
+        pos = grid_positions(r, [r.choice(L) for _ in range(n - 1)])
+        rk = [r.randint(0, 15) for _ in range(n)]
+        base = {"kind": "grid", "pos": pos, "rk": rk, "axis": r.randint(0, 2)}
+        d = r.choice([0.0, 0.0, -1.0, -0.5])
+        for allp in (False, True):
+            yield {**base, "fn": "path", "all": allp, "delta": d, "t": r.choice([0.0, 1.0])}
+            yield {**base, "fn": "angle", "all": allp, "deg": r.random() < 0.5, "delta": d, "t": 0.0}
+            u = r.choice(["m", "rad", "deg"])
+            yield {**base, "fn": "delta", "unit": u, "all": allp, "delta": d, "t": r.choice([0.0, 0.5])}
+            u = r.choice(["m", "rad", "deg", "f"])
+            yield {**base, "fn": "delta", "via": "rpe", "unit": u, "all": allp, "from_ref": False,
+                   "delta": r.choice([2.5, 1.5, -1.0, 2.0]) if u == "f" else d, "t": r.choice([0.0, 0.5])}
+        yield {**base, "fn": "delta", "unit": "f", "all": r.random() < 0.5, "delta": r.choice([1.5, 2.5, 2.0, 1.0]), "t": 0.1}
+
+
+def gen_base(ctx):
     r = ctx.rng
     th = ctx.thorough
     # ---- corpus (hand-made seeds: delta hit exactly, nothing reaches, stand-still, loop closure)
@@ -985,6 +1168,7 @@ def gen_cases(ctx):
         yield from angle_cases(incs, half_grid(r, 9, 2))
     yield from fgrid_cases(ctx, r, L, INC)
     yield from rpe_cases(ctx, r, L, INC)
+    yield from structured_cases(ctx, r, L, INC)
     for u in ("other",):
         yield {"kind": "grid", "fn": "delta", "unit": u, "all": False, "pos": grid_positions(r, [1, 1, 1]), "delta": 1.0, "t": 0.1}
     # ---- random stream
@@ -1084,5 +1268,13 @@ def check(ctx):
 
 def replay(ctx, data):
     core.sh("lake build drv_C10", cwd=core.LEAN)
-    evaluate(ctx, [data["case"]])
+    case = data["case"]
+    # process-level state (L2): a same-shaped twin with other values is run first in the same process
+    twin = {**case, "pos": [[2.0 * x for x in p] for p in case["pos"]]}
+    if case["kind"] == "grid" and "dm" not in case and not case.get("flavour") in ("int", "f32"):
+        try:
+            evaluate(core.Ctx(ctx.prop, ctx.tier, ctx.seed), [twin])
+        except Exception:      # noqa: BLE001
+            pass
+    evaluate(ctx, [case])
     return core.finish_replay(ctx)
